@@ -120,6 +120,20 @@ func pullExchange(ctx context.Context, srv *rsyncd.Server, module string, flags 
 				}
 			}()
 			quiet := func() {
+				// first byte (or the end of the stream) may take a while on a busy machine
+				for w := 0; w < 250; w++ {
+					mu.Lock()
+					n := data.Len()
+					mu.Unlock()
+					if n > 0 {
+						break
+					}
+					select {
+					case <-eof:
+						return
+					case <-time.After(20 * time.Millisecond):
+					}
+				}
 				for {
 					select {
 					case <-eof:
@@ -221,6 +235,8 @@ func runServe(r *run) error {
 			{Path: prefix + "/in-dir", Type: "l", Link: "d"},
 			{Path: prefix + "/in-file", Type: "l", Link: "d/b.txt"},
 			{Path: prefix + "/abs-out", Type: "l", Link: filepath.Join(base, "arena", "outside-area")},
+			{Path: prefix + "/out-chain", Type: "l", Link: "out-dir/"},
+			{Path: prefix + "/d/out-chain2", Type: "l", Link: "out-up/."},
 		}
 	}
 	arena = append(arena, modTree("mod", "mod")...)
@@ -232,8 +248,8 @@ func runServe(r *run) error {
 	}
 	canaries := []string{hx(secretContent), hx(secretName)}
 	// the module tree as the model sees it (symlinks are leaves)
-	modelTree := "D(2:D(two.txt:F),a.txt:F,abs-out:O,d:D(b.txt:F,e:D(c.txt:F),out-up:O),in-dir:O,in-file:O,out-dir:O,out-file:O)"
-	segs := []string{"", ".", "..", "d", "d/", "d/e", "a.txt", "out-dir", "out-dir/", "out-file", "in-dir", "in-dir/", "in-file", "abs-out/", "d/out-up/", "nosuch", "2", "/", "//", "d/../..", "d/../../outside-area", "../outside-area/", "../outside-area/plain.txt", "./d/./e/", "d//e", "out-dir/" + secretName, "d/e/../../.."}
+	modelTree := "D(2:D(two.txt:F),a.txt:F,abs-out:O,d:D(b.txt:F,e:D(c.txt:F),out-chain2:O,out-up:O),in-dir:O,in-file:O,out-chain:O,out-dir:O,out-file:O)"
+	segs := []string{"", ".", "..", "d", "d/", "d/e", "a.txt", "out-dir", "out-dir/", "out-file", "in-dir", "in-dir/", "in-file", "abs-out/", "d/out-up/", "nosuch", "2", "/", "//", "d/../..", "d/../../outside-area", "../outside-area/", "../outside-area/plain.txt", "./d/./e/", "d//e", "out-dir/" + secretName, "d/e/../../..", "out-chain", "out-chain/", "d/out-chain2", "d/out-chain2/", "out-chain/" + secretName}
 	var wg sync.WaitGroup
 	var mu sync.Mutex
 	for i := 0; i < n; i++ {
@@ -323,7 +339,7 @@ func runServe(r *run) error {
 			}
 			// requests that touch a symbolic link are outside the model's domain (oracle only)
 			for _, p := range paths {
-				for _, l := range []string{"out-dir", "out-file", "out-up", "in-dir", "in-file", "abs-out"} {
+				for _, l := range []string{"out-dir", "out-file", "out-up", "in-dir", "in-file", "abs-out", "out-chain"} {
 					if strings.Contains(p, l) {
 						obs = "SKIP"
 					}
